@@ -10,6 +10,7 @@ mod c08;
 mod c09;
 mod c10;
 mod c12;
+mod c13;
 mod c14;
 mod c15;
 mod c16;
@@ -41,6 +42,7 @@ pub fn replay_dispatch(prop: &str, layer: &str, case: &serde_json::Value) -> Res
         "C09" => c09::replay(layer, case),
         "C10" => c10::replay(layer, case),
         "C12" => c12::replay(layer, case),
+        "C13" => c13::replay(layer, case),
         "C14" => c14::replay(layer, case),
         "C15" => c15::replay(layer, case),
         "C16" => c16::replay(layer, case),
@@ -147,6 +149,7 @@ fn main() {
         "C09" => c09::run(&mut run, &ctx),
         "C10" => c10::run(&mut run, &ctx),
         "C12" => c12::run(&mut run, &ctx),
+        "C13" => c13::run(&mut run, &ctx),
         "C14" => c14::run(&mut run, &ctx),
         "C15" => c15::run(&mut run, &ctx),
         "C16" => c16::run(&mut run, &ctx),
